@@ -713,6 +713,9 @@ def run(chk, tier, only_rule=None):
     r06_6(chk, tier)
     from . import c08
     c08.r08_4(chk, tier)      # what the encoders hand to a stream sink is what reaches the stream
+    from . import c10, c03
+    c10.r10_9(chk, tier)      # a composite value (bigfloat, decimal fraction) closes the array it opened through the encoder's own end function
+    c03.r03_11(chk, F.load(['core'], tier))   # a long string read from an iterator range comes out of a scratch buffer that holds nothing else
 
 def ladders(chk, tier):
     # ---- MessagePack
